@@ -3,7 +3,7 @@
 (* C03 / C04 / C13 - design-level check of the rewrite operator.           *)
 (* mode "layout": files of up to NLines lines; each line is one of the     *)
 (*   line kinds below (filler, an occurrence of pattern A and/or B in      *)
-(*   either order, with text around); all three separators, with / without *)
+(*   either order, apart or touching, with text around); all three separators, with / without *)
 (*   trailing separator, mixed endings inside filler.  Invariants state    *)
 (*   the properties on (old text, new text) without reference to how       *)
 (*   Rewrite builds the result:                                            *)
@@ -18,7 +18,8 @@
 (***************************************************************************)
 EXTENDS BVRewrite, TLC
 CONSTANTS NLines, NText,
-          S2      \* model the repaired defect S2 (last match of a line wins): TRUE must violate NoStaleOccurrence (self-test of the invariants)
+          S2,     \* model the repaired defect S2 (last match of a line wins): TRUE must violate NoStaleOccurrence (self-test of the invariants)
+          S20     \* model the repaired defect S20 (a match touching an earlier one is suppressed): TRUE must violate NoStaleOccurrence
 
 T(n) == <<n>>
 \* pattern A: ver=MAJOR.MINOR      pattern B: pep MAJOR-MINOR!     (different patterns, may share a line)
@@ -32,7 +33,7 @@ New == [Base EXCEPT !.minor = 10]          \* 1.9 -> 1.10 : the replacement is l
 A == Render(Old, PA)
 B == Render(Old, PB)
 SP == <<32>>
-LineKinds == << <<>>, <<120, 121>>, A, B, A \o SP \o B, B \o SP \o A, <<120>> \o A \o <<121>>, A \o <<32, 45, 32>> \o B \o <<59>>, <<118,101,114,61>>, <<120, LF, 121>>, <<120, CR, 121>> >>
+LineKinds == << <<>>, <<120, 121>>, A, B, A \o SP \o B, B \o SP \o A, A \o B, B \o A, <<120>> \o A \o <<121>>, A \o <<32, 45, 32>> \o B \o <<59>>, <<118,101,114,61>>, <<120, LF, 121>>, <<120, CR, 121>> >>
 Seps == << <<LF>>, <<CR, LF>>, <<CR>> >>
 
 VARIABLES mode, ks, sep, trail, t
@@ -47,23 +48,23 @@ Text == Join([q \in 1..Len(ks) |-> LineKinds[ks[q]]], Seps[sep]) \o (IF trail TH
 Admissible == mode = "layout" /\ ks # <<>> /\ LineSep(Text) = Seps[sep]
 
 NoStaleOccurrence == Admissible =>
-  LET r == Rewrite(Text, Pats, New, S2) IN
+  LET r == Rewrite(Text, Pats, New, [s2 |-> S2, s20 |-> S20]) IN
   r.ok => LET nl == SplitBy(r.text, LineSep(Text)) ol == SplitBy(Text, LineSep(Text)) IN
           \A i \in 1..Len(ol) : \A k \in 1..2 :
              LET mo == Search(Compile(Pats[k]), ol[i]) mn == Search(Compile(Pats[k]), nl[i]) IN
              mo.ok => (mn.ok /\ SubSeq(nl[i], mn.start, mn.end - 1) = Render(New, Pats[k]))
 OnlySpansChange == Admissible =>
-  LET r == Rewrite(Text, Pats, New, S2) IN
+  LET r == Rewrite(Text, Pats, New, [s2 |-> S2, s20 |-> S20]) IN
   r.ok => LET s == LineSep(Text) nl == SplitBy(r.text, s) ol == SplitBy(Text, s) IN
           /\ Len(nl) = Len(ol) /\ LineSep(r.text) = s
           /\ \A i \in 1..Len(ol) : OnlySpansChanged(ol[i], nl[i], KeptOfLine(r.kept, i))
           /\ \A i \in 1..Len(ol) : KeptOfLine(r.kept, i) = <<>> => nl[i] = ol[i]
 MissingPatternRefused == Admissible =>
-  LET r == Rewrite(Text, Pats, New, S2) IN
+  LET r == Rewrite(Text, Pats, New, [s2 |-> S2, s20 |-> S20]) IN
   r.ok <=> \A k \in 1..2 : \E i \in 1..Len(Lines(Text)) : Search(Compile(Pats[k]), Lines(Text)[i]).ok
 \* the simplest faithful diff: one hunk per changed line; applying it to the old lines gives the new lines
 DiffRoundTrip == Admissible =>
-  LET r == Rewrite(Text, Pats, New, S2) IN
+  LET r == Rewrite(Text, Pats, New, [s2 |-> S2, s20 |-> S20]) IN
   r.ok => LET s == LineSep(Text) nl == SplitBy(r.text, s) ol == SplitBy(Text, s)
               ch == SelectSeq([i \in 1..Len(ol) |-> i], LAMBDA i : ol[i] # nl[i])
               hunks == [q \in 1..Len(ch) |-> [a |-> ch[q], na |-> 1, b |-> ch[q], nb |-> 1, body |-> <<[k |-> "-", s |-> ol[ch[q]]], [k |-> "+", s |-> nl[ch[q]]]>>]]
